@@ -40,7 +40,12 @@ class DockProp:
                 out = "OStreams %s" % (streams_coq(run) or "[]")
             else:
                 out = "OSeries %s" % (mgen.series_coq(run) or "[]")
-            opts = clist("(%s,(%s,%s))" % (cbytes(b64d(k)), cbytes(v["since"].encode()), cbytes(v["until"].encode())) for k, v in sorted((run.get("opts") or {}).items()))
+            def since_of(v):
+                # everything else the daemon is asked must leave the window whole: both streams, timestamps, no tail cut, no follow
+                if v.get("tail") not in ("all", "") or not v.get("stdout") or not v.get("stderr") or not v.get("timestamps") or v.get("follow"):
+                    return ("<narrowed: tail=%s stdout=%s stderr=%s timestamps=%s follow=%s> " % (v.get("tail"), v.get("stdout"), v.get("stderr"), v.get("timestamps"), v.get("follow"))).encode() + v["since"].encode()
+                return v["since"].encode()
+            opts = clist("(%s,(%s,%s))" % (cbytes(b64d(k)), cbytes(since_of(v)), cbytes(v["until"].encode())) for k, v in sorted((run.get("opts") or {}).items()))
             counts = clist("(%s,(%d,%d))" % (cbytes(b64d(k)), v[0], v[1]) for k, v in sorted((run.get("per_container") or {}).items()))
             if run.get("inflight_at_return"):
                 # per-container requests still running when the evaluation returned: not joined (reported as readers that were never closed)
